@@ -16,7 +16,7 @@ RULE = ('case = (transport, child disposition, operation sequence, placement of 
 ASSUMPTIONS = ['process table simulated and validated against the real kernel (see C09 evidence); a fatal signal takes effect '
                'immediately or after a latency below delayafterterminate (choice point)',
                'descriptors are real; "whatever now owns the old descriptor number" is a decoy file dup2()ed onto it']
-REQUIRED_FLAGS = {'decoy_placed': 1, 'ignores': 1, 'stopped': 1, 'mid_exit': 1, 'latency_choice': 1}
+REQUIRED_FLAGS = {'decoy_placed': 1, 'ignores': 1, 'stopped': 1, 'mid_exit': 1, 'latency_choice': 1, 'delay0': 1, 'delay0-ignores': 1}
 
 PTY_OPS = ['isalive', 'kill_term', 'kill_kill', 'terminate', 'terminate_force', 'close', 'close_noforce', 'sendeof',
            'expect_eof', 'send', 'rnb', 'with_exit', 'del', 'wait', 'closed_logfile']
@@ -26,7 +26,7 @@ DISPOSITIONS = ['normal', 'ignores', 'stopped', 'exited', 'exits-mid']      # + 
 
 def bounds(tier):
     return dict(pty_ops=PTY_OPS, fd_ops=FD_OPS, dispositions=DISPOSITIONS, max_len=3 if tier == 'quick' else 4,
-                transports=['pty-select', 'pty-poll(len<=2)', 'fd-select', 'socket'], latency=[0.0, 0.05])
+                transports=['pty-select', 'pty-poll(len<=2)', 'fd-select', 'socket'], latency=[0.0, 0.05, 0.095], zero_grace_periods=True)
 
 
 def tasks(tier):
@@ -41,6 +41,11 @@ def tasks(tier):
         out.append(dict(transport=tr, disposition='peer-closes', first=None, tier=tier))
     for first in ('terminate', 'terminate_force', 'kill_term'):
         out.append(dict(transport='pty-select', disposition='kill-esrch', first=first, tier=tier))
+    # grace periods set to zero (documented attributes; signals then take effect at once in the process table),
+    # for an ordinary child and for one that only SIGKILL stops
+    for disp in ('delay0', 'delay0-ignores'):
+        for first in ('terminate', 'terminate_force', 'close', 'with_exit', 'kill_term'):
+            out.append(dict(transport='pty-select', disposition=disp, first=first, tier=tier))
     return out
 
 
@@ -51,8 +56,14 @@ def run_seq(ch, task, seq):
     try:
         disp = task['disposition']
         fate = ('exit', 3) if disp in ('exits-mid', 'kill-esrch') else None
-        r = L.Run(ch, task['transport'], disposition=disp if disp != 'exits-mid' else 'normal',
-                  latencies=(0.0, 0.05), fate=fate)
+        delay0 = disp.startswith('delay0')
+        r = L.Run(ch, task['transport'], disposition={'exits-mid': 'normal', 'delay0': 'normal', 'delay0-ignores': 'ignores'}.get(disp, disp),
+                  latencies=(0.0,) if delay0 else (0.0, 0.05, 0.095), fate=fate)
+        if delay0:
+            r.sp.delayafterterminate = 0
+            r.sp.delayafterclose = 0
+            r.sp.ptyproc.delayafterterminate = 0
+            r.sp.ptyproc.delayafterclose = 0
         for op in seq:
             if op == 'wait' and r.proc is not None and r.proc.alive() and not r.env.script:
                 # documented to block until the child exits: not executed on a child that never will
